@@ -362,10 +362,21 @@ def collect(eng, fi, spec):
     def uses(node, var):
         return var is not None and any(isinstance(x, ast.Name) and x.id == var and isinstance(x.ctx, ast.Load) for x in ast.walk(node))
 
+    enclosing = set()       # texts of the atomic tests of the enclosing `if`s
+
     def walk(stmts, side, carry=None):
         """side: inherited from an enclosing side-marked test.  carry = (side, scalar temporary) set by a side-marked assignment to a plain name:
         following statements that read that temporary inherit its side."""
         for st in stmts:
+            if isinstance(st, ast.Assign) and len(st.targets) == 1 and isinstance(st.value, ast.IfExp) and _is_indicator(st.value.body) and _is_indicator(st.value.orelse) \
+                    and ekey(st.value.test) in enclosing:
+                # inside `if a or b:`, `x = (-1 if a else 1)` is `if a: x = -1` / `else: x = 1` (two branches merged by a refactoring are still two sides)
+                import copy
+                a, b = copy.copy(st), copy.copy(st)
+                a.value, b.value = st.value.body, st.value.orelse
+                syn = ast.copy_location(ast.If(test=st.value.test, body=[a], orelse=[b]), st)
+                walk([syn], side, carry)
+                continue
             if isinstance(st, (ast.If, ast.While)):
                 tside = None
                 for t in tests_of(st.test):
@@ -377,7 +388,10 @@ def collect(eng, fi, spec):
                     elif carry and uses(t, carry[1]):
                         tside = carry[0]
                     items.append((it, inh))
+                mine = set(ekey(t) for t in tests_of(st.test)) - enclosing
+                enclosing.update(mine)
                 walk(st.body, tside or side, carry if tside and carry and tside == carry[0] else None)
+                enclosing.difference_update(mine)
                 walk(st.orelse, side, carry)
                 continue
             if isinstance(st, ast.For):
@@ -409,6 +423,16 @@ def collect(eng, fi, spec):
                     carry = None          # the temporary was overwritten by something unrelated
 
     walk(fi.node.body, None)
+    # the same test made twice on one side (an outer `if a or b:` and an inner `if a:`) is one piece of side information
+    seen_tests = set()
+    dedup = []
+    for (it, sd) in items:
+        if it is not None and it.kind == "test" and sd in ("L", "U"):
+            if (it.text, sd) in seen_tests:
+                continue
+            seen_tests.add((it.text, sd))
+        dedup.append((it, sd))
+    items = dedup
     L, U = [], []
     tr.two_sided = []
     for (it, sd) in items:
